@@ -118,6 +118,10 @@ var compounds = []compound{
 	// Go values whose types have methods but are neither structs nor pointers to structs
 	{"named_dur", "named", fm(`$ = hdur()`), "", -1},
 	{"named_strs", "named", fm(`$ = hstrs()`), "", -1},
+	// the same kinds of values bound by the host as plain variables (not handed out by a Go function):
+	// the baseline then holds the Go value itself
+	{"named_durv", "named", fm(`$ = hdurv`), "", -1},
+	{"named_lvlv", "named", fm(`$ = hlvlv`), "", -1},
 	{"st_val", "struct", fm("$ = make(struct{A int64, B string})\n$.A = 3\n$.B = \"s\""), "", -1},
 	{"st_iface", "struct", fm("$ = make(struct{A interface, B []int64})\n$.A = \"x\""), "", -1},
 	{"mod", "mod", fm("module $ {\na = 1\nb = \"s\"\nfunc f() { return 2 }\n}"), "", -1},
@@ -142,7 +146,7 @@ func init() {
 	kindsByCat["scalar"] = scalarKinds
 	kindsByCat["indexable"] = append(append(append([]string{}, kindsByCat["slice"]...), kindsByCat["map"]...), "str")
 	kindsByCat["iterable"] = append(append(append([]string{}, kindsByCat["slice"]...), kindsByCat["map"]...), "ch_closed", "ch_closed_empty")
-	kindsByCat["hasmember"] = append(append(append([]string{}, kindsByCat["map"]...), kindsByCat["struct"]...), "mod", "pt_struct", "mod", "named_dur", "named_strs", "named_dur", "named_strs")
+	kindsByCat["hasmember"] = append(append(append([]string{}, kindsByCat["map"]...), kindsByCat["struct"]...), "mod", "pt_struct", "mod", "named_dur", "named_strs", "named_dur", "named_strs", "named_durv", "named_lvlv", "named_durv", "named_lvlv")
 	kindsByCat["settable"] = append(append([]string{}, kindsByCat["map"]...), "mod", "pt_struct", "pt_struct", "mod")
 	kindsByCat["truthy"] = []string{"true", "false", "int", "float", "str", "nil", "sl_empty", "sl_ints", "mp_empty", "mp_str", "pt_int0", "pt_int5", "pt_bool", "pt_str", "pt_nil", "sl_nil", "mp_nil"}
 	kindsByCat["key"] = []string{"str", "int", "str", "true", "float"}
@@ -392,7 +396,7 @@ type template struct {
 }
 
 var binOps = []string{"+", "-", "*", "/", "%", "&", "|", "<<", ">>", "==", "!=", "<", "<=", ">", ">=", "&&", "||"}
-var memberNames = []string{"k", "a", "A", "B", "f", "zz", "m", "String", "Len", "Seconds"}
+var memberNames = []string{"k", "a", "A", "B", "f", "zz", "m", "String", "Len", "Seconds", "Next", "String", "Seconds"}
 
 var templates = []template{
 	{name: "un", weight: 5, prefs: []string{"num"}, ops: []string{"-", "!", "^"}},
@@ -403,6 +407,9 @@ var templates = []template{
 	{name: "in", weight: 3, prefs: []string{"scalar", "sliceish"}, ops: []string{"slot", "lit"}},
 	{name: "call", weight: 3, prefs: []string{"func"}},
 	{name: "callarg", weight: 3, prefs: []string{"any", "any"}, ops: []string{"hf2", "hfv", "gpair", "gi", "gs"}},
+	// Go functions whose parameter needs a conversion that only the dynamic value decides: a func type, a
+	// typed map, a typed pointer, a rune, a byte slice
+	{name: "callconv", weight: 4, prefs: []string{"any"}, ops: []string{"gfn", "gmap", "gptr", "grune", "gbytes", "gfn", "gmap", "gptr"}},
 	{name: "spread", weight: 3, prefs: []string{"sliceish"}, ops: []string{"hf1", "hf2", "hfv", "hf2v", "gv", "gsum"}},
 	{name: "member", weight: 3, prefs: []string{"hasmember"}, ops: []string{"get", "get", "call"}},
 	{name: "deref", weight: 3, prefs: []string{"ptr"}},
@@ -706,6 +713,8 @@ func body(c Case, e []string) string {
 			return c.Op + "(" + e[0] + ")"
 		}
 		return c.Op + "(" + e[0] + ", " + e[1] + ")"
+	case "callconv":
+		return c.Op + "(" + e[0] + ")"
 	case "spread":
 		if c.Op == "hf2v" {
 			return "hf2v(1, " + e[0] + "...)"
@@ -830,6 +839,12 @@ func body(c Case, e []string) string {
 
 // ---------------------------------------------------------------- running
 
+// hostLevel is a named integer type with methods (an enum as hosts define them).
+type hostLevel int64
+
+func (l hostLevel) String() string  { return fmt.Sprintf("level-%d", int64(l)) }
+func (l hostLevel) Next() hostLevel { return l + 1 }
+
 func newEnv() *env.Env {
 	e := env.NewEnv()
 	e.Define("id", func(x interface{}) interface{} { return x })
@@ -841,6 +856,18 @@ func newEnv() *env.Env {
 	e.Define("gs", func(s []interface{}) int64 { return int64(len(s)) })
 	e.Define("gv", func(xs ...interface{}) []interface{} { return append([]interface{}{int64(len(xs))}, xs...) })
 	e.Define("hdur", func() interface{} { return 90 * time.Second })
+	e.Define("gfn", func(f func(int64) int64) int64 { return f(3) })
+	e.Define("gmap", func(m map[string]int64) int64 { return int64(len(m)) })
+	e.Define("gptr", func(p *int64) int64 {
+		if p == nil {
+			return -1
+		}
+		return *p
+	})
+	e.Define("grune", func(r rune) int64 { return int64(r) })
+	e.Define("gbytes", func(b []byte) int64 { return int64(len(b)) })
+	e.Define("hdurv", 90*time.Second)
+	e.Define("hlvlv", hostLevel(3))
 	e.Define("hstrs", func() interface{} { return sort.StringSlice{"b", "a", "c"} })
 	e.Define("gsum", func(xs ...int64) int64 {
 		var s int64
